@@ -142,7 +142,7 @@ def _min_worker(args):
         faulthandler.cancel_dump_traceback_later()
 
 
-def drive(prop, modname, tier, level, rule, assumptions, extra_cov=None):
+def drive(prop, modname, tier, level, rule, assumptions, extra_cov=None, state_measure=None):
     """Run the batch for one property.  Returns the process exit code."""
     t0 = time.time()
     seed = master_seed()
@@ -218,7 +218,7 @@ def drive(prop, modname, tier, level, rule, assumptions, extra_cov=None):
     replays = []
     # minimise a few classes in parallel (bounded), report all
     order = sorted(new)
-    todo = [(modname, new[c][0], 60 if tier == 'quick' else 220) for c in order[:6]]
+    todo = [(modname, new[c][0], 150 if tier == 'quick' else 400) for c in order[:8]]
     mins = pmap(_min_worker, todo, chunk=1) if todo else []
     for i, cls in enumerate(order):
         v = new[cls][0]
@@ -240,6 +240,7 @@ def drive(prop, modname, tier, level, rule, assumptions, extra_cov=None):
         'sim_seconds': round(agg.sim_seconds, 2),
         'ticks': agg.ticks,
         'distinct_states': len(agg.states),
+        'state_measure': state_measure,
         'counters': dict(sorted(agg.stats.items())),
         'batches': batch_no,
         'workers': n_workers(),
